@@ -382,7 +382,24 @@ def run_recorded(case):
 
     solver.update = rec_update
     try:
-        drivers.hand_step(solver, 20)
+        states, dts = drivers.hand_step(solver, 20)
+        # calls that do not continue the previous one (the update is a function of the state it is handed): an earlier state
+        # submitted again, and an unrelated order parameter with an exact zero and |psi| > 1
+        t_now = float(np.sum(dts))
+        for k in (3, 11):
+            if k < len(states) - 1:
+                drivers.update_once(solver, {kk: np.array(v) for kk, v in states[k].items()}, len(dts), t_now, dts[k])
+                res.count("recorded_updates_not_continuing_the_previous_call")
+        rng = np.random.default_rng([int(case["gamma"] * 10), 202])
+        odd = {kk: np.array(v) for kk, v in states[-1].items()}
+        n_ = len(odd["psi"])
+        odd["psi"] = (rng.uniform(0.0, 1.4, n_) * np.exp(2j * np.pi * rng.random(n_))).astype(complex)
+        odd["psi"][n_ // 2] = 0.0
+        if case["drive"] == "current":
+            odd["psi"][np.asarray(solver.operators.fixed_sites, int)] = 0.0
+        odd["mu"] = 0.3 * rng.normal(size=n_)
+        drivers.update_once(solver, odd, len(dts), t_now, min(dts))
+        res.count("recorded_updates_not_continuing_the_previous_call")
     except RuntimeError as exc:
         if "converge" not in str(exc):
             raise
